@@ -536,3 +536,228 @@ Proof.
   { intros k l. unfold add_key. destruct (mem_bytes k l) eqn:E; [now apply mem_in | apply in_or_app; right; now left]. }
   simpl. repeat split; apply A.
 Qed.
+
+(* ---- histories on one API value ---- *)
+Lemma validate_history_length d : forall steps a, length (validate_history a d steps) = length steps.
+Proof. induction steps as [|s r IH]; intros a; cbn [validate_history length]; [reflexivity | now rewrite IH]. Qed.
+
+(* the k-th answer of a history is the answer of a fresh API value given every registration made so far *)
+Theorem validate_history_fresh d : forall steps a k r,
+  nth_error (validate_history a d steps) k = Some r ->
+  r = validate (fold_left apply_reg (concat (firstn (S k) steps)) a) d.
+Proof.
+  induction steps as [|s rest IH]; intros a k r H.
+  - destruct k; discriminate H.
+  - cbn [validate_history] in H. destruct k as [|k'].
+    + cbn [nth_error] in H. injection H as H. subst r. cbn [firstn concat]. now rewrite app_nil_r.
+    + cbn [nth_error] in H. apply IH in H. subst r.
+      change (firstn (S (S k')) (s :: rest)) with (s :: firstn (S k') rest). cbn [concat]. now rewrite fold_left_app.
+Qed.
+
+Lemma list_eqb_bytes_refl l : list_eqb bytes_eqb l l = true.
+Proof. induction l as [|x r IH]; cbn [list_eqb]; [reflexivity | now rewrite bytes_eqb_refl, IH]. Qed.
+Lemma failure_eqb_refl f : failure_eqb f f = true.
+Proof. unfold failure_eqb. now rewrite Nat.eqb_refl, !list_eqb_bytes_refl. Qed.
+Lemma opt_failure_eqb_refl r : opt_eqb failure_eqb r r = true.
+Proof. destruct r as [f|]; cbn; [apply failure_eqb_refl | reflexivity]. Qed.
+
+(* the model's own history: what the check demands of the implementation's (history_ok) holds of it *)
+Fixpoint model_more (a : api) (d : desc) (steps : list (list reg)) : list (list reg * option failure * option failure) :=
+  match steps with
+  | [] => []
+  | s :: r => let a' := fold_left apply_reg s a in (s, validate a' d, validate a' d) :: model_more a' d r
+  end.
+Theorem model_history_ok d : forall steps a, history_ok a d (model_more a d steps) = true.
+Proof.
+  induction steps as [|s r IH]; intros a; cbn [model_more history_ok]; [reflexivity|].
+  now rewrite opt_failure_eqb_refl, validate_meets_prop, IH.
+Qed.
+
+(* the handler keeps nothing between requests *)
+Theorem serve_history_is_map a d rqs : serve_history a d rqs = map (serve_one a d) rqs.
+Proof. reflexivity. Qed.
+
+(* ---- a well-formed request to a validated API ---- *)
+(* the API default is empty or the JSON media type with its consumer and producer registered *)
+Definition defaults_inv (a : api) : Prop :=
+  a_default a = [] \/ (a_default a = JSON_MIME /\ In JSON_MIME (a_consumers a) /\ In JSON_MIME (a_producers a)).
+Lemma in_add_key x k l : In x l -> In x (add_key k l).
+Proof. intros H. unfold add_key. destruct (mem_bytes k l); [assumption | apply in_or_app; now left]. Qed.
+Lemma apply_reg_inv a r : defaults_inv a -> defaults_inv (apply_reg a r).
+Proof.
+  intros [H | [H [Hc Hp]]]; destruct r; cbn [apply_reg]; unfold defaults_inv; cbn [a_default a_consumers a_producers];
+    try (left; assumption); try (left; reflexivity).
+  - right. split; [assumption|]. split; [now apply in_add_key | assumption].
+  - right. split; [assumption|]. split; [assumption | now apply in_add_key].
+  - right. now split.
+  - right. now split.
+Qed.
+Lemma fold_reg_inv rs : forall a, defaults_inv a -> defaults_inv (fold_left apply_reg rs a).
+Proof. induction rs as [|r rs IH]; intros a H; cbn [fold_left]; [assumption | apply IH, apply_reg_inv, H]. Qed.
+Lemma build_api_inv regs : defaults_inv (build_api regs).
+Proof. apply fold_reg_inv. right. split; [reflexivity|]. split; now left. Qed.
+
+Lemma split_semi_id s : mem_byte SEMI s = false -> split_semi s = s.
+Proof.
+  induction s as [|c r IH]; intros H; cbn [split_semi]; [reflexivity|].
+  unfold mem_byte in H. cbn [existsb] in H. apply Bool.orb_false_iff in H. destruct H as [H1 H2].
+  rewrite Nat.eqb_sym, H1. f_equal. now apply IH.
+Qed.
+Lemma simple_mt_normal mt : simple_mt mt = true -> normalize_offer mt = mt /\ mt <> [].
+Proof.
+  unfold simple_mt. intros H. apply Bool.andb_true_iff in H. destruct H as [H Hne].
+  apply Bool.andb_true_iff in H. destruct H as [H _]. apply Bool.andb_true_iff in H. destruct H as [_ Hs].
+  split; [apply split_semi_id; now apply Bool.negb_true_iff in Hs | intros ->; discriminate Hne].
+Qed.
+Lemma simple_effective d o mt : simple_desc d = true -> In o (g_ops d) ->
+  In mt (effective_consumes d o) \/ In mt (effective_produces d o) -> simple_mt mt = true.
+Proof.
+  intros S Ho H. unfold simple_desc in S. rewrite forallb_forall in S. apply S. unfold desc_media_types.
+  rewrite !in_app_iff. destruct H as [H | H].
+  - unfold effective_consumes in H. destruct (op_consumes o) eqn:E; [now left|].
+    right. right. left. apply (in_flat_map_ops op_consumes d o); [assumption | now rewrite E].
+  - unfold effective_produces in H. destruct (op_produces o) eqn:E; [right; now left|].
+    right. right. right. apply (in_flat_map_ops op_produces d o); [assumption | now rewrite E].
+Qed.
+Lemma in_route_produces_of dflt l x : In x (route_produces_of dflt l) -> In x l \/ (x = dflt /\ dflt <> []).
+Proof.
+  unfold route_produces_of. intros H. destruct dflt as [|c r].
+  - left. apply (proj1 (in_dedup x l)). exact H.
+  - cbv beta iota zeta in H. destruct (contains_ci (dedup l) (c :: r)).
+    + left. apply (proj1 (in_dedup x l)). exact H.
+    + apply in_app_or in H. destruct H as [H | [H | []]].
+      * left. apply (proj1 (in_dedup x l)). exact H.
+      * right. split; [now symmetry | discriminate].
+Qed.
+
+Lemma auth_passes_covered a d o creds : validate a d = None -> In o (g_ops d) ->
+  creds_cover (effective_security d o) creds = true -> auth_passes (a_auths a) (effective_security d o) creds = true.
+Proof.
+  intros V Ho C. destruct (validated_lookups a d o V Ho) as [_ [_ [_ Hs]]].
+  unfold auth_passes. unfold creds_cover in C. destruct (is_nil (effective_security d o)); [reflexivity|].
+  cbn [orb] in *. apply existsb_exists in C. destruct C as [alt [Halt Hall]].
+  destruct alt as [|s alt'] eqn:E.
+  - apply Bool.orb_true_iff. right. apply existsb_exists. now exists [].
+  - apply Bool.orb_true_iff. left. apply existsb_exists. exists (s :: alt'). split; [assumption|].
+    unfold alt_applies. cbn [is_nil negb andb]. rewrite forallb_forall in *. intros x Hx.
+    rewrite (Hall x Hx), Bool.andb_true_r. apply mem_in. now apply (Hs (s :: alt') x).
+Qed.
+
+Lemma consumer_available regs d o mt : validate (build_api regs) d = None -> In o (g_ops d) -> simple_desc d = true ->
+  mem_bytes mt (map normalize_offer (route_consumes_of (build_api regs) d o)) = true ->
+  content_admitted (route_consumes_of (build_api regs) d o) mt = true /\
+  consumer_found (build_api regs) (route_consumes_of (build_api regs) d o) mt = true.
+Proof.
+  intros V Ho S M. split.
+  - unfold content_admitted. apply Bool.orb_true_iff. right. unfold contains_ci.
+    unfold mem_bytes in M. apply existsb_exists in M. destruct M as [y [Hy E]]. apply existsb_exists. exists y.
+    split; [assumption|]. apply bytes_eqb_eq in E. subst y. apply bytes_eqb_refl.
+  - unfold consumer_found. rewrite M. cbn [andb]. apply mem_in. apply mem_in in M. apply in_map_iff in M.
+    destruct M as [c [Hn Hc]]. unfold route_consumes_of in Hc. apply in_route_produces_of in Hc.
+    destruct (validated_lookups _ d o V Ho) as [_ [Hcons _]]. destruct Hc as [Hc | [Hc Hne]].
+    + assert (simple_mt c = true) as Sc by (apply (simple_effective d o); [assumption | assumption | now left]).
+      apply simple_mt_normal in Sc. destruct Sc as [Sc _]. rewrite Sc in Hn. subst mt. now apply Hcons.
+    + destruct (build_api_inv regs) as [H0 | [HJ [HC _]]]; [congruence|].
+      rewrite Hc, HJ in Hn. vm_compute in Hn. subst mt. exact HC.
+Qed.
+
+(* a well-formed request to a declared operation of a validated API over a simple description is never turned away for
+   lack of a route or handler (4), of an authenticator (7), of an admitted content type (5), of a consumer (1):
+   the handler runs, or the request is answered as Respond answers a value (outcomes of C08's serve) *)
+Theorem validated_wf_request regs d o rq :
+  validate (build_api regs) d = None -> In o (g_ops d) -> simple_desc d = true ->
+  wf_base (g_base d) = true -> wf_template (op_path o) = true ->
+  wf_request (build_api regs) d o rq = true ->
+  let k := rs_outcome (serve_request (build_api regs) d o rq) in k <> 1 /\ k <> 4 /\ k <> 5 /\ k <> 7.
+Proof.
+  intros V Ho S Wb Wt W. unfold wf_request in W. apply Bool.andb_true_iff in W. destruct W as [W Wa].
+  apply Bool.andb_true_iff in W. destruct W as [Wc Wct].
+  unfold serve_request. rewrite (validated_routes _ d o V Ho Wb Wt). cbn [negb].
+  unfold own_template. rewrite (route_template_recovered d o Wb Wt), bytes_eqb_refl. cbn [negb].
+  rewrite (auth_passes_covered _ d o _ V Ho Wc). cbn [negb].
+  assert ((negb (is_nil (rq_ct rq)) && negb (content_admitted (route_consumes_of (build_api regs) d o) (media_type_of (rq_ct rq))) = false) /\
+          (negb (is_nil (rq_ct rq)) && negb (consumer_found (build_api regs) (route_consumes_of (build_api regs) d o) (media_type_of (rq_ct rq))) = false)) as [B1 B2].
+  { destruct (is_nil (rq_ct rq)); [now split|]. cbn [orb] in Wct. cbn [negb andb].
+    destruct (consumer_available regs d o _ V Ho S Wct) as [C1 C2]. now rewrite C1, C2. }
+  rewrite B1, B2.
+  destruct (parse_accept (rq_accept rq)) as [specs|]; [|cbn; repeat split; discriminate].
+  destruct (serve _ _ _ _ _ _ _) as [pk ct | r].
+  - destruct pk; cbn; repeat split; discriminate.
+  - destruct (o_error r) as [e|]; [destruct (Nat.eqb e 406) | destruct (o_producer r)]; cbn; repeat split; discriminate.
+Qed.
+
+(* stronger: such a request runs the handler and is answered 200 through a producer, or Respond finds no producer at all
+   (which C19_validated_producer_for_every_offer excludes for every offered format: what remains is F-C19-1, nothing offered) *)
+Lemma route_produces_nonempty regs d o p : In o (g_ops d) -> simple_desc d = true ->
+  In p (rt_produces (route_of (build_api regs) d o)) -> p <> [].
+Proof.
+  intros Ho S H. unfold route_of in H. cbn [rt_produces] in H. apply in_route_produces_of in H.
+  destruct H as [H | [H Hne]]; [|congruence].
+  assert (simple_mt p = true) as Sp by (apply (simple_effective d o); [assumption | assumption | now right]).
+  now apply simple_mt_normal in Sp.
+Qed.
+
+Lemma serve_value_outcomes dflt registered rt specs :
+  rt_has_op rt = true -> rt_codes rt = [200] ->
+  (negotiate_content_type specs (rt_produces rt) [] = [] -> rt_produces rt = []) ->
+  (exists fmt p, serve dflt registered rt specs false NoAuth DValue = Responded (mkresp fmt 200 None (Some p) None None)) \/
+  (exists fmt, serve dflt registered rt specs false NoAuth DValue = Panicked PNoProducer fmt).
+Proof.
+  intros Hop Hc Hn. unfold serve, serve_validated.
+  assert (serve_respond dflt registered rt specs false None [] DValue =
+          match route_or_default registered dflt rt (normalize_offer (response_format None specs (respond_offers dflt (rt_produces rt)))) with
+          | Some p => Responded (mkresp (response_format None specs (respond_offers dflt (rt_produces rt))) 200 None (Some p) None None)
+          | None => Panicked PNoProducer (response_format None specs (respond_offers dflt (rt_produces rt)))
+          end) as E.
+  { unfold serve_respond, respond. rewrite Hop, Hc. reflexivity. }
+  destruct (negotiate_content_type specs (rt_produces rt) []) eqn:F.
+  - rewrite (Hn eq_refl). rewrite E. destruct (route_or_default _ _ _ _); [left | right]; eauto.
+  - destruct (rt_produces rt); rewrite E; destruct (route_or_default _ _ _ _); [left | right | left | right]; eauto.
+Qed.
+
+Theorem validated_wf_request_served regs d o rq :
+  validate (build_api regs) d = None -> In o (g_ops d) -> simple_desc d = true ->
+  wf_base (g_base d) = true -> wf_template (op_path o) = true ->
+  wf_request (build_api regs) d o rq = true ->
+  (exists ct p, serve_request (build_api regs) d o rq = mkres 0 ct p) \/
+  serve_request (build_api regs) d o rq = res_fail 2.
+Proof.
+  intros V Ho S Wb Wt W. pose proof W as W0. unfold wf_request in W. apply Bool.andb_true_iff in W. destruct W as [W Wa].
+  apply Bool.andb_true_iff in W. destruct W as [Wc Wct].
+  unfold serve_request. rewrite (validated_routes _ d o V Ho Wb Wt). cbn [negb].
+  unfold own_template. rewrite (route_template_recovered d o Wb Wt), bytes_eqb_refl. cbn [negb].
+  rewrite (auth_passes_covered _ d o _ V Ho Wc). cbn [negb].
+  assert ((negb (is_nil (rq_ct rq)) && negb (content_admitted (route_consumes_of (build_api regs) d o) (media_type_of (rq_ct rq))) = false) /\
+          (negb (is_nil (rq_ct rq)) && negb (consumer_found (build_api regs) (route_consumes_of (build_api regs) d o) (media_type_of (rq_ct rq))) = false)) as [B1 B2].
+  { destruct (is_nil (rq_ct rq)); [now split|]. cbn [orb] in Wct. cbn [negb andb].
+    destruct (consumer_available regs d o _ V Ho S Wct) as [C1 C2]. now rewrite C1, C2. }
+  rewrite B1, B2. unfold accept_ok in Wa.
+  destruct (parse_accept (rq_accept rq)) as [specs|]; [|discriminate Wa].
+  destruct (serve_value_outcomes (a_default (build_api regs)) (a_producers (build_api regs)) (route_of (build_api regs) d o) specs)
+    as [[fmt [p E]] | [fmt E]]; try reflexivity.
+  - intros F. destruct (rt_produces (route_of (build_api regs) d o)) as [|p ps] eqn:EP; [reflexivity|]. exfalso.
+    assert (p <> []) as Hp by (apply (route_produces_nonempty regs d o); [assumption | assumption | rewrite EP; now left]).
+    destruct specs as [|sp specs'].
+    + cbn in F. contradiction.
+    + cbn [is_nil orb] in Wa. rewrite F in Wa. discriminate Wa.
+  - left. rewrite E. cbn. eauto.
+  - right. rewrite E. reflexivity.
+Qed.
+
+(* the hypotheses are satisfiable: a validated API with two alternative requirements, a request in mixed case with a
+   parameter that satisfies the first alternative only; it is served, in the format it asks for *)
+Definition ex_post : bytes := [80; 79; 83; 84].
+Definition ex_basic : bytes := [98; 97; 115; 105; 99].
+Definition ex_key : bytes := [107; 101; 121].
+Definition ex_ct_mixed : bytes := [84; 101; 120; 116; 47; 80; 76; 65; 73; 78; 59; 32; 99; 104; 97; 114; 115; 101; 116; 61; 117; 116; 102; 45; 56].  (* Text/PLAIN; charset=utf-8 *)
+Definition ex_desc2 : desc :=
+  mkdesc [] [ex_text] [ex_text] [[ex_basic]; [ex_key]] [ex_basic; ex_key] [mkop ex_post ex_path_a [] [] None].
+Definition ex_regs2 : list reg :=
+  [RWithoutJSON; RConsumer ex_text; RProducer ex_text; ROperation ex_post ex_path_a; RAuth ex_basic; RAuth ex_key].
+Definition ex_rq : request := mkreq 0 ex_ct_mixed [ex_text] [ex_basic].
+Example ex_wf_request :
+  validate (build_api ex_regs2) ex_desc2 = None /\ simple_desc ex_desc2 = true /\
+  wf_request (build_api ex_regs2) ex_desc2 (mkop ex_post ex_path_a [] [] None) ex_rq = true /\
+  serve_one (build_api ex_regs2) ex_desc2 ex_rq = mkres 0 ex_text ex_text /\
+  rs_outcome (serve_one (build_api ex_regs2) ex_desc2 (mkreq 0 ex_ct_mixed [ex_text] [])) = 7.
+Proof. vm_compute. repeat split; reflexivity. Qed.
